@@ -120,12 +120,6 @@ theorem narrow_overflow_underflow (x : UInt64) :
     rw [h0, narrowMag_zero]
     omega
 
-/-- Order key of a binary64/binary32 pattern: sign-magnitude read as an
-integer.  On non-NaN patterns it orders exactly like the represented value
-(with −0 = +0). -/
-def key64 (x : Nat) : Int := if sign64 x = 1 then -((x % 2 ^ 63 : Nat) : Int) else ((x % 2 ^ 63 : Nat) : Int)
-def key32 (b : Nat) : Int := if sign32 b = 1 then -((b % 2 ^ 31 : Nat) : Int) else ((b % 2 ^ 31 : Nat) : Int)
-
 /-- Narrowing is monotone (round-to-nearest never reorders), ∞ included. -/
 theorem narrow_monotone (x y : UInt64) (hx : ¬ isNaNd x) (hy : ¬ isNaNd y)
     (hle : key64 x.toNat ≤ key64 y.toNat) :
@@ -171,6 +165,51 @@ theorem narrow_monotone (x y : UInt64) (hx : ¬ isNaNd x) (hy : ¬ isNaNd y)
       (by omega) hny
     omega
 
+/-- The order key is the order of the represented values: `key64 x ≤ key64 y`
+exactly when `value(x) ≤ value(y)` (`scaled64` = value·2^1074, which extends to
+±∞ as ±2^1024·2^1074), −0 = +0 … -/
+theorem key64_orders_like_value (x y : UInt64) :
+    key64 x.toNat ≤ key64 y.toNat ↔ scaled64 x.toNat ≤ scaled64 y.toNat := by
+  obtain ⟨hdx, hsx, hex, hmx⟩ := decomp64 x.toNat x.toNat_lt
+  obtain ⟨hdy, hsy, hey, hmy⟩ := decomp64 y.toNat y.toNat_lt
+  have mx : x.toNat % 2 ^ 63 = exp64 x.toNat * 2 ^ 52 + man64 x.toNat := by omega
+  have my : y.toNat % 2 ^ 63 = exp64 y.toNat * 2 ^ 52 + man64 y.toNat := by omega
+  have h1 := scaledMag64_le_iff (exp64 x.toNat) _ (exp64 y.toNat) _ hmx hmy
+  have h2 := scaledMag64_le_iff (exp64 y.toNat) _ (exp64 x.toNat) _ hmy hmx
+  have z1 := scaledMag64_zero_iff (exp64 x.toNat) _ hmx
+  have z2 := scaledMag64_zero_iff (exp64 y.toNat) _ hmy
+  unfold key64 scaled64
+  rw [mx, my]
+  generalize scaledMag64 (exp64 x.toNat) (man64 x.toNat) = Sx at *
+  generalize scaledMag64 (exp64 y.toNat) (man64 y.toNat) = Sy at *
+  by_cases sx : sign64 x.toNat = 1 <;> by_cases sy : sign64 y.toNat = 1 <;>
+    simp only [sx, sy, if_true, if_false] <;> omega
+
+/-- … and the same for binary32. -/
+theorem key32_orders_like_value (a b : UInt32) :
+    key32 a.toNat ≤ key32 b.toNat ↔ scaled32 a.toNat ≤ scaled32 b.toNat := by
+  obtain ⟨hda, hsa, hEa, hfa⟩ := decomp32 a.toNat a.toNat_lt
+  obtain ⟨hdb, hsb, hEb, hfb⟩ := decomp32 b.toNat b.toNat_lt
+  have ma : a.toNat % 2 ^ 31 = exp32 a.toNat * 2 ^ 23 + man32 a.toNat := by omega
+  have mb : b.toNat % 2 ^ 31 = exp32 b.toNat * 2 ^ 23 + man32 b.toNat := by omega
+  have h1 := scaledMag32_le_iff (exp32 a.toNat) _ (exp32 b.toNat) _ hfa hfb
+  have h2 := scaledMag32_le_iff (exp32 b.toNat) _ (exp32 a.toNat) _ hfb hfa
+  have z1 := scaledMag32_zero_iff (exp32 a.toNat) _ hfa
+  have z2 := scaledMag32_zero_iff (exp32 b.toNat) _ hfb
+  unfold key32 scaled32
+  rw [ma, mb]
+  generalize scaledMag32 (exp32 a.toNat) (man32 a.toNat) = Sa at *
+  generalize scaledMag32 (exp32 b.toNat) (man32 b.toNat) = Sb at *
+  by_cases sa : sign32 a.toNat = 1 <;> by_cases sb : sign32 b.toNat = 1 <;>
+    simp only [sa, sb, if_true, if_false] <;> omega
+
+/-- Monotonicity in terms of values: `value(x) ≤ value(y)` implies
+`value((float)x) ≤ value((float)y)` for non-NaN arguments (∞ ordered as above). -/
+theorem narrow_monotone_value (x y : UInt64) (hx : ¬ isNaNd x) (hy : ¬ isNaNd y)
+    (hle : scaled64 x.toNat ≤ scaled64 y.toNat) :
+    scaled32 (narrow x).toNat ≤ scaled32 (narrow y).toNat :=
+  (key32_orders_like_value _ _).mp (narrow_monotone x y hx hy ((key64_orders_like_value x y).mpr hle))
+
 /-! ## cffi's store and read paths -/
 
 /-- `p[0] = x` then `p[0]` for `float`: the C narrowing followed by the exact
@@ -205,6 +244,16 @@ theorem read_store_stable (bs : Bytes) (hlen : bs.length = 4)
 theorem bad_size (x : UInt64) (size : Nat) (h4 : size ≠ 4) (h8 : size ≠ 8) :
     writeRawFloat x size = .error .fatalBadSize := by
   simp [writeRawFloat, h4, h8]
+
+/-- `ffi.cast("double", b"A")` / `ffi.cast("float", "é")`: the double made from
+a character ordinal is a finite non-negative number whose value is that integer
+(`scaled64` = value·2^1074); storing it then goes through the same paths. -/
+theorem ordinal_cast_exact (n : Nat) (hn : n < 0x110000) :
+    value64 (natToDouble n) = some (((n * 2 ^ 1074 : Nat) : Int) / (2 : Rat) ^ 1074) := by
+  obtain ⟨h1, h2, h3⟩ := natToDouble_exact n (by omega)
+  have hs : sign64 (natToDouble n) = 0 := by unfold sign64; omega
+  unfold value64 scaled64
+  rw [if_neg h2, hs, if_neg (by decide), h3]
 
 /-- `float _Complex` / `double _Complex`: the real part is stored at the start
 and the imaginary part right behind it, each exactly as a `float`/`double`
@@ -314,5 +363,6 @@ example : narrowNat 0x7ff0000000000001 = 0x7fc00000 := by decide
 -- complex_is_pairwise and longdouble_copy_identity hypotheses are satisfiable
 example : (8 = 8 ∨ 8 = 16) ∧ 4 + 8 ≤ (List.replicate 16 (0 : UInt8)).length := by decide
 example : (List.replicate 16 (7 : UInt8)).length = ldSize := by decide
+example : natToDouble 65 = 0x4050400000000000 := by decide
 
 end CffiVerif.C05
